@@ -371,6 +371,7 @@ static int get_more_chars(struct scanner_s *scanner);
 
 /* other functions */
 static int decode_text(struct scanner_s *scanner, UChar *text, int32_t text_length, cif_value_tp **dest);
+static int find_header_name(string_element_tp *head, string_element_tp *end, const UChar *name);
 
 /* function-like macros */
 
@@ -1490,6 +1491,45 @@ static int parse_loop(struct scanner_s *scanner, cif_container_tp *container) {
     return result;
 }
 
+/*
+ * Determines whether the given data name matches (in the normalized sense) one of the names of the list segment
+ * [head, end).  Returns CIF_OK if so, CIF_NOSUCH_ITEM if not (including if the name is not a valid data name), or
+ * an error code.
+ */
+static int find_header_name(string_element_tp *head, string_element_tp *end, const UChar *name) {
+    UChar *name_norm;
+    int result = cif_normalize_item_name(name, -1, &name_norm, CIF_NOSUCH_ITEM);
+
+    if (result == CIF_OK) {
+        string_element_tp *el;
+
+        result = CIF_NOSUCH_ITEM;
+        for (el = head; (el != NULL) && (el != end) && (result == CIF_NOSUCH_ITEM); el = el->next) {
+            UChar *el_norm;
+
+            if (el->string != NULL) {
+                switch (cif_normalize_item_name(el->string, -1, &el_norm, CIF_NOSUCH_ITEM)) {
+                    case CIF_OK:
+                        if (u_strcmp(name_norm, el_norm) == 0) {
+                            result = CIF_OK;
+                        }
+                        free(el_norm);
+                        break;
+                    case CIF_NOSUCH_ITEM:
+                        break;
+                    default:
+                        result = CIF_ERROR;
+                        break;
+                }
+            }
+        }
+
+        free(name_norm);
+    }
+
+    return result;
+}
+
 static int parse_loop_header(struct scanner_s *scanner, cif_container_tp *container, string_element_tp **name_list_head,
         int *name_countp) {
     string_element_tp **next_namep = name_list_head;  /* a pointer to the pointer to the next data name in the header */
@@ -1517,9 +1557,13 @@ static int parse_loop_header(struct scanner_s *scanner, cif_container_tp *contai
                 u_strncpy((*next_namep)->string, token_value, token_length);
                 (*next_namep)->string[token_length] = 0;
 
-                /* check for data name duplication */
-                switch (result = ((container == NULL) ? CIF_NOSUCH_ITEM
-                            : cif_container_get_item_loop(container, (*next_namep)->string, NULL))) {
+                /* check for data name duplication, against the container and against this header's earlier names */
+                result = ((container == NULL) ? CIF_NOSUCH_ITEM
+                        : cif_container_get_item_loop(container, (*next_namep)->string, NULL));
+                if ((result == CIF_NOSUCH_ITEM) && (container != NULL)) {
+                    result = find_header_name(*name_list_head, *next_namep, (*next_namep)->string);
+                }
+                switch (result) {
                     case CIF_NOSUCH_ITEM:
                         /* the expected case */
                         break;
